@@ -84,6 +84,14 @@ pub struct ScenarioC7 {
     /// everything due inside the window becomes ready at once
     #[serde(default)]
     pub jump: Option<(u64, u64)>,
+    /// the manager talks to the real `MockExecution` client; the mock exchange behind its request
+    /// channel is scripted by the simulator (same per-request behaviours)
+    #[serde(default)]
+    pub mock_client: bool,
+    /// mock client only: the exchange task goes away at this instant (its request channel closes and
+    /// every answer still owed is dropped): the client must report "exchange offline" for those
+    #[serde(default)]
+    pub exchange_gone_at: Option<u64>,
 }
 
 pub struct SimC7;
@@ -186,6 +194,8 @@ impl Sim for SimC7 {
             } else {
                 None
             },
+            mock_client: rng.chance(1, 4),
+            exchange_gone_at: if sub == 1 && rng.chance(1, 3) { Some(rng.below(t + timeout_ms + 2)) } else { None },
         }
     }
 
@@ -223,7 +233,10 @@ impl Sim for SimC7 {
         let last_send = reqs.iter().map(|r| r.at_ms).max().unwrap_or(0);
 
         let rt = paused_runtime(sc.tokio_seed);
-        let jump = if sc.close_rx_at.is_some() { None } else { sc.jump };
+        // (with the mock client the instant the manager hands a request over is not observable - only
+        // the instant the scripted exchange takes it off its channel is - so no clock leap there)
+        let jump = if sc.close_rx_at.is_some() || sc.mock_client { None } else { sc.jump };
+        let gone_at = if sc.mock_client { sc.exchange_gone_at } else { None };
         let (got, received, manager_result, end_ms, sent_at): (Vec<Got>, Vec<RecvReq>, Result<(), String>, u64, Vec<u64>) =
             rt.block_on(async {
                 let start = tokio::time::Instant::now();
@@ -232,27 +245,93 @@ impl Sim for SimC7 {
                     .enumerate()
                     .map(|(k, r)| (cids[k].clone(), r.behav))
                     .collect();
-                let (client, _acct_tx) = SimClient::new_client(
-                    EXS[0],
-                    behav,
-                    UnindexedAccountSnapshot {
-                        exchange: EXS[0],
-                        balances: vec![],
-                        instruments: vec![],
-                    },
-                );
                 let map = generate_execution_instrument_map(&instruments, EXS[0]).expect("map");
                 let indexer = AccountEventIndexer::new(Arc::new(map));
                 let (req_tx, req_rx) = mpsc_unbounded::<ExecutionRequest>();
                 let (resp_tx, mut resp_rx) = mpsc_unbounded::<AccountStreamEvent>();
-                let manager = ExecutionManager::new(
-                    req_rx.into_stream(),
-                    Duration::from_millis(timeout),
-                    resp_tx,
-                    Arc::new(client.clone()),
-                    indexer,
-                );
-                let manager_handle = tokio::spawn(manager.run());
+                // what the exchange side saw, whichever client is in between
+                let received_log: Arc<std::sync::Mutex<Vec<RecvReq>>> = Arc::new(std::sync::Mutex::new(Vec::new()));
+                let mut sim_client: Option<SimClient> = None;
+                let manager_handle = if sc.mock_client {
+                    use barter_execution::{
+                        client::mock::{MockExecution, MockExecutionClientConfig},
+                        exchange::mock::request::{MockExchangeRequest, MockExchangeRequestKind},
+                    };
+                    fn mock_clock() -> chrono::DateTime<chrono::Utc> {
+                        ts(0)
+                    }
+                    let (mx_tx, mut mx_rx) = tokio::sync::mpsc::unbounded_channel::<MockExchangeRequest>();
+                    let (_ev_tx, ev_rx) = tokio::sync::broadcast::channel::<UnindexedAccountEvent>(16);
+                    let client = <MockExecution<fn() -> chrono::DateTime<chrono::Utc>> as barter_execution::client::ExecutionClient>::new(MockExecutionClientConfig {
+                        mocked_exchange: EXS[0],
+                        clock: mock_clock as fn() -> chrono::DateTime<chrono::Utc>,
+                        request_tx: mx_tx,
+                        event_rx: ev_rx,
+                    });
+                    // the scripted mock exchange: answers every request after its scripted delay, never
+                    // for "silent" ones, and goes away at `exchange_gone_at`
+                    let log = received_log.clone();
+                    let gone_at = sc.exchange_gone_at;
+                    tokio::spawn(async move {
+                        let mut owed: Vec<tokio::task::JoinHandle<()>> = Vec::new();
+                        loop {
+                            let next = match gone_at {
+                                Some(g) => match tokio::time::timeout_at(start + Duration::from_millis(g), mx_rx.recv()).await {
+                                    Ok(x) => x,
+                                    Err(_) => break,
+                                },
+                                None => mx_rx.recv().await,
+                            };
+                            let Some(req) = next else { break };
+                            let now_ms = start.elapsed().as_millis() as u64;
+                            match req.kind {
+                                MockExchangeRequestKind::OpenOrder { response_tx, request } => {
+                                    let cid = request.key.cid.0.to_string();
+                                    log.lock().unwrap().push(RecvReq { at_ms: now_ms, open: true, exchange: request.key.exchange, instrument: request.key.instrument.name().to_string(), cid: cid.clone() });
+                                    let b = behav.get(&cid).copied().unwrap_or(Behav { delay_ms: Some(0), resp: Resp::OkOpen });
+                                    owed.push(tokio::spawn(async move {
+                                        wait_behav(b).await;
+                                        let _ = response_tx.send(open_response(request.key.clone(), &request.state, b, start.elapsed().as_millis() as u64));
+                                    }));
+                                }
+                                MockExchangeRequestKind::CancelOrder { response_tx, request } => {
+                                    let cid = request.key.cid.0.to_string();
+                                    log.lock().unwrap().push(RecvReq { at_ms: now_ms, open: false, exchange: request.key.exchange, instrument: request.key.instrument.name().to_string(), cid: cid.clone() });
+                                    let b = behav.get(&format!("x:{cid}")).or(behav.get(&cid)).copied().unwrap_or(Behav { delay_ms: Some(0), resp: Resp::OkOpen });
+                                    owed.push(tokio::spawn(async move {
+                                        wait_behav(b).await;
+                                        let _ = response_tx.send(cancel_response(request.key.clone(), b, start.elapsed().as_millis() as u64));
+                                    }));
+                                }
+                                _ => {}
+                            }
+                        }
+                        // gone: the request channel closes and every answer still owed is dropped
+                        drop(mx_rx);
+                        for h in owed {
+                            h.abort();
+                        }
+                    });
+                    tokio::spawn(ExecutionManager::new(req_rx.into_stream(), Duration::from_millis(timeout), resp_tx, Arc::new(client), indexer).run())
+                } else {
+                    let (client, _acct_tx) = SimClient::new_client(
+                        EXS[0],
+                        behav,
+                        UnindexedAccountSnapshot {
+                            exchange: EXS[0],
+                            balances: vec![],
+                            instruments: vec![],
+                        },
+                    );
+                    sim_client = Some(client.clone());
+                    tokio::spawn(ExecutionManager::new(req_rx.into_stream(), Duration::from_millis(timeout), resp_tx, Arc::new(client), indexer).run())
+                };
+                let read_received = || -> Vec<RecvReq> {
+                    match &sim_client {
+                        Some(client) => client.0.received.lock().unwrap().clone(),
+                        None => received_log.lock().unwrap().clone(),
+                    }
+                };
 
                 // collector: stamps every event with virtual time + global sequence number
                 let close_at = sc.close_rx_at;
@@ -306,7 +385,7 @@ impl Sim for SimC7 {
                 tokio::time::sleep_until(start + Duration::from_millis(last_actual + timeout + 3)).await;
                 // a leap may land between the send and the manager picking the request up; the
                 // timeout runs from the pick-up (= the instant the client is called)
-                let last_recv = client.0.received.lock().unwrap().iter().map(|x| x.at_ms).max().unwrap_or(0);
+                let last_recv = read_received().iter().map(|x| x.at_ms).max().unwrap_or(0);
                 tokio::time::sleep_until(start + Duration::from_millis(last_recv + timeout + 3)).await;
                 if jump.is_some() {
                     // the waits above may themselves have been swallowed by the leap: let the
@@ -326,7 +405,7 @@ impl Sim for SimC7 {
                     Ok(Ok(())) => Ok(()),
                 };
                 let got = collector.await.unwrap_or_default();
-                let received = client.0.received.lock().unwrap().clone();
+                let received = read_received();
                 (got, received, manager_result, start.elapsed().as_millis() as u64, sent_at)
             });
         drop(rt);
@@ -356,12 +435,22 @@ impl Sim for SimC7 {
             if jump.is_some() {
                 stats.fault("clock_jump");
             }
+            if sc.mock_client {
+                stats.probe("manager_over_real_mock_client");
+            }
+            if gone_at.is_some() {
+                stats.fault("mock_exchange_gone");
+            }
             if reqs.len() >= 64 {
                 stats.probe("64_outstanding");
             }
             // requests reach the client exactly once each
             for (k, r) in reqs.iter().enumerate() {
                 let cid = cids[k].clone();
+                if gone_at.is_some() {
+                    // (what reaches a vanishing exchange is not pinned down: judged by E2 below)
+                    continue;
+                }
                 let n = received.iter().filter(|x| x.cid == cid && x.instrument == inst_name(r.inst)).count();
                 if cids.iter().filter(|c| **c == cid).count() > 1 {
                     stats.probe("client_order_id_shared_by_two_instruments");
@@ -453,7 +542,13 @@ impl Sim for SimC7 {
                     continue;
                 }
                 let g = mine[0];
-                if g.at_ms != resolve_at && Some(g.at_ms) != resolve_alt {
+                // the exchange behind the mock client went away before this request would have been
+                // resolved: exactly one event, rightly attributed, is all the statement pins down
+                let affected = gone_at.is_some_and(|x| resolve_at >= x || s_at >= x);
+                if affected {
+                    stats.probe("request_outstanding_when_exchange_went_away");
+                }
+                if !affected && g.at_ms != resolve_at && Some(g.at_ms) != resolve_alt {
                     fail!('chk, "E3_event_time", k, "request {cid} sent at {} ms (delay {:?}, timeout {timeout}): event at {} ms, expected {resolve_at} ms", r.at_ms, r.behav.delay_ms, g.at_ms);
                 }
                 let AccountStreamEvent::Item(ev) = &g.ev else { continue };
@@ -498,6 +593,9 @@ impl Sim for SimC7 {
                 };
                 if !kind_ok || !inst_ok {
                     fail!('chk, "E4_attribution", k, "request {cid} ({} on instrument {}): answered by {:?}", if r.open { "open" } else { "cancel" }, r.inst, ev.kind);
+                }
+                if affected {
+                    continue;
                 }
                 match by_client {
                     Some(true) if is_timeout => {
@@ -599,6 +697,7 @@ impl Sim for SimC7 {
             "client_error_response",
             "response_receiver_dropped",
             "clock_jump",
+            "mock_exchange_gone",
         ]
     }
     fn probe_kinds(&self) -> Vec<&'static str> {
@@ -608,6 +707,8 @@ impl Sim for SimC7 {
             "64_outstanding",
             "several_responses_same_instant",
             "client_order_id_shared_by_two_instruments",
+            "manager_over_real_mock_client",
+            "request_outstanding_when_exchange_went_away",
             "resolution_inside_clock_jump",
         ]
     }
